@@ -5,6 +5,7 @@ from __future__ import annotations
 import ast
 
 from sa.astutil import (
+    raise_conditions,
     arg_or_kw,
     call_name,
     calls_in,
@@ -245,14 +246,21 @@ def r3_type_tables(ctx):
     ctx.floor(n, 5)
     v = ctx.func(f"{AB}._validate")
     p = v.params[1]
-    gs = raising_ifs(v.node)
-    want = {"type": f"not isinstance({p}, np.ndarray)", "dtype": f"{p}.dtype not in self.TYPE_LIST", "shape": f"{p}.shape != self._shape"}
-    for k, t in want.items():
-        ok = any(norm(i.test) == t for i in gs)
-        ctx.check(ok, v.qual + f"#{k}", f"raises when {t}" if ok else f"_validate no longer rejects `{t}`", where=v, node=v.node)
-    for i in gs:
-        if enclosing_tests(i):
-            ctx.fail(v.qual + "#conditional", f"validation guard `{norm(i.test)}` is conditional", where=v, node=i)
+    # canonical rejection conditions: (test, polarity-at-the-raise); `if bad: raise`, `if good: return`
+    # + raise, and checks moved into (inlined) helper methods all reduce to these
+    want = {"type": (f"isinstance({p}, np.ndarray)", False), "dtype": (f"{p}.dtype in self.TYPE_LIST", False), "shape": (f"{p}.shape == self._shape", False)}
+    rcs = raise_conditions(v)
+    for k, (t, pol) in want.items():
+        hits = [(r_, conds) for r_, conds in rcs if any(norm(expand(v, c)) == t and cp == pol for c, cp in conds)]
+        ok = bool(hits)
+        ctx.check(ok, v.qual + f"#{k}", f"raises when not ({t})" if ok else f"_validate no longer rejects `not ({t})`", where=v, node=hits[0][0] if hits else v.node)
+        for r_, conds in hits:
+            # the rejection must not depend on anything else (an extra condition would let bad arrays through)
+            extra = [(norm(expand(v, c)), cp) for c, cp in conds if not (norm(expand(v, c)) == t and cp == pol)]
+            # earlier checks that passed are implied (e.g. the isinstance test holding is known)
+            extra = [(tx, cp) for tx, cp in extra if (tx, not cp) not in want.values()]
+            if extra:
+                ctx.fail(v.qual + "#conditional", f"validation guard `not ({t})` is conditional on {extra}", where=v, node=r_)
     # subclasses do not override _validate / the array setter with something weaker
     for ci in ctx.repo.subclasses(ctx.cls(AB)):
         for m in ("_validate",):
